@@ -360,6 +360,15 @@ def blen(x):
             if isinstance(n, int) and not isinstance(n, bool) and (lo is None or (isinstance(lo, int) and not isinstance(lo, bool))) and \
                     (hi is None or (isinstance(hi, int) and not isinstance(hi, bool))):
                 return len(range(*slice(lo, hi).indices(n)))
+        if x.op == "fmt" and isinstance(x.args[1], str) and x.args[1].startswith("0") and x.args[1][-1:] in ("b", "x") and x.args[1][1:-1].isdigit():
+            # format(v, "0Nb") / "0Nx" is exactly N characters when v is known to fit (v read from at most N bits of bytes)
+            w = int(x.args[1][1:-1])
+            v = x.args[0]
+            per = 1 if x.args[1][-1] == "b" else 4
+            if isinstance(v, T) and v.op == "b2i":
+                nb = blen(v.args[0])
+                if isinstance(nb, int) and not isinstance(nb, bool) and 8 * nb <= w * per:
+                    return w
         if x.op == "ite":
             n1, n2 = blen(_unfz1(x.args[1])), blen(_unfz1(x.args[2]))
             if isinstance(n1, int) and n1 == n2:
